@@ -10,6 +10,22 @@ E3 = 'TLC model checking of a TLA+ model generated from the documented tables, w
 
 # pid -> (engine, technique, level text, note, design_ref)
 CHECKS = {
+    'C11': ('E1', E1,
+            'Index map j = 1..120/1000 against an independent generator of the Noll order (bijection onto the admissible (n,m)); '
+            'mode values for j <= 66/120 on a rational node grid against radial polynomials evaluated in exact Fractions times the '
+            'azimuthal factor and sqrt(n+1), sqrt(2(n+1)); all 2211/7260 pairs of modes by a Gauss-Legendre x uniform quadrature that '
+            'is exact for the degrees involved; |Z| <= 1 un-normalised; default coordinates for every placement of six small masks '
+            'on even, odd and non-square arrays with three mask values (origin = Fraction centroid, rho = 1 at the farthest sample, '
+            'zero outside, support only).',
+            'Trusted: numpy; tolerance is the rounding bound of the factorial sum; either sign of the sine modes accepted.',
+            'DESIGN.md section 4 C11'),
+    'C12': ('E1', E1,
+            'Four masks (disc, off-centre disc on a non-square array, hexagon, two discs) on 16/17-sample arrays x all 63/255 non-empty '
+            'subsets of modes 1..6/1..8 in sorted, reversed and every (<= 3) order x unit and generic coefficient vectors x normalise '
+            'on/off x default and caller-supplied coordinates: fit(compose(c)) = c; remove equals an independent lstsq projection, '
+            'its residual has vanishing coefficients, is idempotent, and a pure-subset OPD goes to zero.',
+            'Trusted: numpy.linalg; ill-conditioned bases (cond > 1e8) counted and skipped as the statement allows.',
+            'DESIGN.md section 4 C12'),
     'C03': ('E1', E1,
             'Every set partition of each 7-pixel support (bar, L, plus, two blobs) into <= 3/4 blocks - including interleaved segments '
             'whose bounding boxes overlap or coincide - crossed with three plane chains (one pupil; two pupils; two segmented pupils '
